@@ -525,7 +525,9 @@ func (root *Root) resolveField(
 	result map[string]interface{},
 	depth int) (ea []error) {
 
-	if field.ConType == nil {
+	if field.ConType != t {
+		// The arguments declared depend on the container type, a field
+		// reached through a fragment is evaluated in more than one.
 		field.ConType = t
 		ea = append(ea, field.sortArgs()...)
 	} else {
